@@ -111,10 +111,16 @@ func buildArithSpace(tier string, seed int64) arithSpace {
 			s.HiPairs = append(s.HiPairs, [2]Operand{a, Fin(3, 0, false)}, [2]Operand{a, Fin(7, -1, true)}, [2]Operand{Fin(1, 0, false), a})
 		}
 	}
+	for i, nk := range Near128() {
+		// upscale of the longer operand by k places across 2^128 / 2^64 (Add/Sub/Rem align the coefficients)
+		if i%3 == 0 {
+			s.HiPairs = append(s.HiPairs, [2]Operand{FinBig(nk.A, 0, false), Fin(1, int32(-nk.K), i%2 == 1)})
+		}
+	}
 	for _, pr := range [][2]int64{{1, 3}, {2, 3}, {-1, 7}, {1, 6}, {10, -9}, {1, 1024}} {
 		s.HiPairs = append(s.HiPairs, [2]Operand{Fin(absI(pr[0]), 0, pr[0] < 0), Fin(absI(pr[1]), 0, pr[1] < 0)})
 	}
-	s.Desc += "; high-precision block: LONG + EDGE operands (and pairs, incl. 1/3, 2/3, -1/7, 1/6, 10/-9, 1/1024) at p in {19,20,21,34,38,39} (kept coefficients across the 64- and 128-bit boundaries) and p in {128,129,130,200} (across the 128-entry power-of-ten tables) x 8 modes"
+	s.Desc += "; high-precision block: LONG + EDGE operands (and pairs, incl. 1/3, 2/3, -1/7, 1/6, 10/-9, 1/1024 and coefficients whose alignment by 1..19 places crosses 2^64 / 2^128) at p in {19,20,21,34,38,39} (kept coefficients across the 64- and 128-bit boundaries) and p in {128,129,130,200} (across the 128-entry power-of-ten tables) x 8 modes"
 	return s
 }
 
